@@ -63,6 +63,7 @@ struct RefParser<'a> {
     s: &'a [u8],
     i: usize,
     opts: Opts,
+    impl_model: bool,
 }
 
 impl<'a> RefParser<'a> {
@@ -121,6 +122,10 @@ impl<'a> RefParser<'a> {
                         self.i += 1;
                     }
                     let k = self.i - run_start;
+                    if self.impl_model && k == 2 {
+                        self.model_double_star(run_start, in_alt, &mut out);
+                        continue;
+                    }
                     let at_start = run_start == start;
                     let left_sep = run_start > start && self.s[run_start - 1] == b'/';
                     let next = self.s.get(self.i).copied();
@@ -167,6 +172,50 @@ impl<'a> RefParser<'a> {
         Ok(out)
     }
 
+    /// The implementation's own rule for `**` (the counterfactual of known
+    /// finding `recursive-wildcard-next-to-alternates-differs-from-inlining`):
+    /// only the tokens of the CURRENT branch and the characters right next to
+    /// the stars are looked at, so what stands on the other side of a `{`,
+    /// `,` or `}` is not seen.
+    fn model_double_star(&mut self, run_start: usize, in_alt: bool, out: &mut Vec<Tok>) {
+        let next = self.s.get(self.i).copied();
+        if out.is_empty() {
+            if next.is_none() || next == Some(b'/') {
+                if next.is_some() {
+                    self.i += 1;
+                }
+                out.push(Tok::RecPrefix);
+            } else {
+                out.push(Tok::Star);
+                out.push(Tok::Star);
+            }
+            return;
+        }
+        if self.s[run_start - 1] != b'/' {
+            out.push(Tok::Star);
+            out.push(Tok::Star);
+            return;
+        }
+        let is_suffix = match next {
+            None => true,
+            Some(b',') | Some(b'}') if in_alt => true,
+            Some(b'/') => {
+                self.i += 1;
+                false
+            }
+            _ => {
+                out.push(Tok::Star);
+                out.push(Tok::Star);
+                return;
+            }
+        };
+        match out.pop() {
+            Some(Tok::RecPrefix) => out.push(Tok::RecPrefix),
+            Some(Tok::RecSuffix) => out.push(Tok::RecSuffix),
+            _ => out.push(if is_suffix { Tok::RecSuffix } else { Tok::RecInner }),
+        }
+    }
+
     fn class(&mut self) -> Result<Tok, ()> {
         let mut neg = false;
         if let Some(&c) = self.s.get(self.i) {
@@ -206,6 +255,58 @@ impl<'a> RefParser<'a> {
     }
 }
 
+/// The brace-free globs obtained by putting each branch of the glob's single
+/// (unescaped, outside any class) group in the group's place; `None` if the
+/// glob has no such group or more than one.
+fn inline_group(g: &str, o: Opts) -> Option<Vec<String>> {
+    let s = g.as_bytes();
+    let (mut i, mut open, mut close) = (0, None, None);
+    let mut commas = vec![];
+    while i < s.len() {
+        match s[i] {
+            b'\\' if o.backslash_escape => i += 1,
+            b'[' => {
+                // skip the class (a `]` right after the opening or the negation is literal)
+                i += 1;
+                if matches!(s.get(i), Some(b'!') | Some(b'^')) {
+                    i += 1;
+                }
+                i += 1;
+                while i < s.len() && s[i] != b']' {
+                    i += 1;
+                }
+            }
+            b'{' => {
+                if open.is_some() {
+                    return None;
+                }
+                open = Some(i);
+            }
+            b'}' => {
+                if open.is_none() || close.is_some() {
+                    return None;
+                }
+                close = Some(i);
+            }
+            b',' if open.is_some() && close.is_none() => commas.push(i),
+            _ => {}
+        }
+        i += 1;
+    }
+    let (open, close) = (open?, close?);
+    let mut cuts = vec![open];
+    cuts.extend(commas);
+    cuts.push(close);
+    let mut branches: Vec<&str> = cuts.windows(2).map(|w| &g[w[0] + 1..w[1]]).collect();
+    if !o.empty_alternates {
+        branches.retain(|b| !b.is_empty());
+        if branches.is_empty() {
+            branches.push("");
+        }
+    }
+    Some(branches.iter().map(|b| format!("{}{}{}", &g[..open], b, &g[close + 1..])).collect())
+}
+
 pub struct RefGlob {
     /// Alternate-free expansions.
     seqs: Vec<Vec<Tok>>,
@@ -216,7 +317,11 @@ pub struct RefGlob {
 /// `lone-recursive-prefix-matches-everything`: the glob `**/` is treated
 /// exactly like `**`.
 pub fn ref_parse(glob: &str, opts: Opts, lone_prefix_is_everything: bool) -> Result<RefGlob, ()> {
-    let mut p = RefParser { s: glob.as_bytes(), i: 0, opts };
+    ref_parse_with(glob, opts, lone_prefix_is_everything, false)
+}
+
+fn ref_parse_with(glob: &str, opts: Opts, lone_prefix_is_everything: bool, impl_model: bool) -> Result<RefGlob, ()> {
+    let mut p = RefParser { s: glob.as_bytes(), i: 0, opts, impl_model };
     let mut toks = p.seq(false)?;
     if lone_prefix_is_everything && toks.len() == 1 && matches!(toks[0], Tok::RecPrefix) {
         toks[0] = Tok::Everything;
@@ -504,6 +609,70 @@ pub fn run(args: &Args) -> ! {
             }
         }
     }
+    // alternates x recursive wildcard family: `{a,b}` matches what `a` or `b`
+    // matches in its place, so a glob with one group must match exactly what
+    // its textual inlinings (brace-free globs) match
+    let mut inl_known = 0u64;
+    {
+        let specials = [
+            "a{**/b,c}", "a/{**/b,c}", "{a,**/b}", "{**/a,b}/c", "a{/**,b}", "{a/**,b}c", "{a,b/**}/c", "{a\\,**,b}", "{a\\{**,b}", "{a,**}", "{**,a}", "a/{**,b}",
+            "{a,b}/**", "**/{a,b}", "{a/,b}**", "{a/,b}**/c", "a/**{/b,c}", "{a,b}**", "**{a,b}", "a{,/**}", "{a/**/b,c}", "{**/a/**,b}",
+        ];
+        let al = [b'a', b'b', b'c', b'/', b','];
+        let maxlen = tier.pick(4, 6);
+        let mut spaths: Vec<Vec<u8>> = vec![];
+        let mut idx = vec![];
+        for i in 0..seq_count(al.len(), maxlen) {
+            seq_decode(al.len(), i, &mut idx);
+            spaths.push(idx.iter().map(|&k| al[k]).collect());
+        }
+        spaths.push(b"a{b".to_vec());
+        spaths.push(b"a{".to_vec());
+        for g in specials {
+            let g = g.replace("\\\\", "\\");
+            for oi in 0..nopts {
+                let o = Opts::from_index(oi);
+                let Some(inlined) = inline_group(&g, o) else { continue };
+                let imp = o.builder(&g).build();
+                let refs: Vec<Result<RefGlob, ()>> = inlined.iter().map(|t| ref_parse(t, o, true)).collect();
+                let mirror = ref_parse_with(&g, o, true, true);
+                acc_total.single_evals += 1;
+                let ref_ok = refs.iter().all(|r| r.is_ok());
+                if imp.is_ok() != ref_ok {
+                    verdict.discrepancy(None, &format!("build:{}:{}", g, oi), json!({"kind":"glob-accepted-vs-inlining","glob":g,"opts":oi,"impl_ok":imp.is_ok(),"inlined":inlined}));
+                    continue;
+                }
+                let Ok(gl) = imp else { continue };
+                let m = gl.compile_matcher();
+                let mut per = 0;
+                for p in spaths.iter() {
+                    let a = m.is_match(os(p));
+                    let b = refs.iter().any(|r| r.as_ref().unwrap().is_match(p));
+                    acc_total.single_evals += 1;
+                    if a != b {
+                        let mirrored = mirror.as_ref().map_or(false, |r| r.is_match(p) == a);
+                        if mirrored {
+                            inl_known += 1;
+                            if inl_known > 6 {
+                                continue;
+                            }
+                        } else {
+                            per += 1;
+                            if per > 3 {
+                                continue;
+                            }
+                        }
+                        verdict.discrepancy(
+                            if mirrored { Some("recursive-wildcard-next-to-alternates-differs-from-inlining") } else { None },
+                            &format!("inlining:{}:{}:{}", g, oi, esc(p)),
+                            json!({"kind":"single-vs-inlining","glob":g,"opts":oi,"path":esc(p),"impl":a,"inlined_globs":inlined,"any_inlined_glob_matches":b}),
+                        );
+                    }
+                }
+            }
+        }
+    }
+    ev.set("alternates_inlining_family_known_cases", inl_known);
     eprintln!("[c12] layer 2 done at {:.1}s", ev.elapsed());
 
     // ---- layer 1: set vs members --------------------------------------------
